@@ -18,6 +18,9 @@ type CharSet struct {
 	sub        *CharSet //optional subtractor
 	negate     bool
 	anything   bool
+	// building is set while the parser is still adding items: normalisations that
+	// turn the set into its negated form must wait, later items are added to ranges
+	building bool
 
 	ascii *asciiBitmap
 }
@@ -860,7 +863,7 @@ func (c *CharSet) canonicalize() {
 	// If the class now represents a single negated range, but does so by including every
 	// other character, invert it to produce a normalized form with a single range.  This
 	// is valuable for subsequent optimizations in most of the engines.
-	if !c.negate && c.sub == nil && len(c.categories) == 0 {
+	if !c.building && !c.negate && c.sub == nil && len(c.categories) == 0 {
 		if len(c.ranges) == 2 {
 			// There are two ranges in the list.  See if there's one missing range between them.
 			// Such a range might be as small as a single character.
@@ -905,7 +908,7 @@ func (c *CharSet) canonicalize() {
 	// of missing characters; in fact, categories in general are superfluous and the entire set can be represented as ranges.
 	// But categories serve as a space optimization, and we strike a balance between testing many characters and the time/complexity
 	// it takes to do so.  Thus, we limit this to the common case of a single missing character.)
-	if !c.negate && c.sub == nil && len(c.categories) > 0 &&
+	if !c.building && !c.negate && c.sub == nil && len(c.categories) > 0 &&
 		len(c.ranges) == 2 && c.ranges[0].First == 0 && c.ranges[0].Last+2 == c.ranges[1].First && c.ranges[1].Last == unicode.MaxRune {
 
 		if c.charInCategories(c.ranges[0].Last + 1) {
